@@ -27,7 +27,7 @@ func run(c *vf.Ctx) {
 		"IsInSubnet on every address x every subnet base x every length; IsInRange on every address x every (start,end) over a boundary set. " +
 		"IPv6: zero, all-ones, counter, every single bit and its complement, every group x boundary values (thorough: every byte position x 256 values) for print/parse; IsInRange/IsInSubnet against every (start,end)/subnet over zero, ones and all 128 single bits. " +
 		"ports: all pairs over {0,1,9,10,99,100,999,1000,9999,10000,65534,65535}, every port p in (p,p),(0,p),(p,65535) (thorough: p with each of the 12 boundary ports in both orders), out-of-range neighbours and a malformed list. " +
-		"hashes: {LM:NT, :NT, LM:, NT, \"\", \":\"} x {lower, upper, mixed} x all paddings of length <=2 over {space, tab, newline} on both sides, through ParseLMNTHashes and NewCredentials. A case is distinct per (function, input)")
+		"hashes: {LM:NT, :NT, LM:, NT, \"\", \":\"} x {lower, upper, mixed} x all paddings of length <=2 over {space, tab, LF, CR, FF, VT} on both sides, through ParseLMNTHashes and NewCredentials. A case is distinct per (function, input)")
 	c.Assume("net/netip (stdlib) implements standard IP text forms, prefix containment, masking and ordering; strconv for port integers")
 	c.Assume("membership in the subnet of x/len means: the first len bits equal those of x (host bits of the subnet operand are irrelevant), as netip.Prefix.Contains")
 	selfTest(c)
@@ -616,7 +616,7 @@ func hashes(c *vf.Ctx) {
 		{"LM:", true, false, func(l, n string) string { return l + ":" }, false},
 		{"colon", false, false, func(l, n string) string { return ":" }, false},
 	}
-	pads := enum.Strings([]string{" ", "\t", "\n"}, 2)
+	pads := enum.Strings([]string{" ", "\t", "\n", "\r", "\f", "\v"}, 2) // every ASCII white-space character
 	caseName := []string{"lower", "upper", "mixed"}
 	fns := []struct {
 		name string
